@@ -186,6 +186,9 @@ pub enum Step {
     AwaitResponses { count: usize, max_ms: u64 },
     /// Wait until `n` bytes of response stream have been received in total.
     AwaitRespBytes { n: u64, max_ms: u64 },
+    /// after an upgrade: wait until `n` raw bytes have arrived (or EOF, or
+    /// `max_ms`); a timeout is recorded in `ConnObs::raw_waits_timed_out`
+    AwaitRaw { n: u64, max_ms: u64 },
     /// Wait for the server to close the connection.
     AwaitEof { max_ms: u64 },
     Close,
